@@ -17,6 +17,12 @@ Tie:
          process-global state, i.e. where an impure block function (global RNG, module table) shows.
          The purity itself is a proof obligation (Props/C01.lean `all_block_functions_pure`, decided on
          the generated effect summaries); this stream is its observation and its failing-input search.
+     (e) several lazy results evaluated in ONE *graph* (dask.compute of all, xr.Dataset, a - b): calls that differ in exactly
+         one place, or in nothing; each result against its own NumPy call.  dask merges the graphs into one dictionary:
+         tasks of different calls that carry the same key replace each other, although every result computed alone is
+         right.  That no call site of the library names its own graph key is a proof obligation (Props/C01.lean
+         `no_call_site_names_its_graph_key`, decided on Gen/GraphKeys.lean + the key fields of Gen/Overlap, Gen/Blocks);
+         this stream observes dask's side of the contract and is the failing-input search (harness/jointgraph.py).
 """
 import itertools
 import math
@@ -805,7 +811,13 @@ def run(r, scale=1):
               "schedulers synchronous/threads x {1,2,4,16}; joint-compute: groups of 3-6 calls (all from the operations whose "
               "generated effect summary writes global state, distinct seeds; or mixed over all operations) whose lazy results are "
               "computed by one dask.compute under threads x {2,4,8} (synchronous as control), 2-3 rounds, each compared with its "
-              "NumPy result; non-trivial = more than one block / a joint group")
+              "NumPy result; joint-graph: per operation a group of calls on Dask-backed rasters -- the first as generated, each other "
+              "one differing from it in exactly one place, enumerated: every band / the raster, then parameters, the chunking, "
+              "nothing (up to 4 variants; the function swapped for a sibling with the same call shape 35%) -- whose lazy results are "
+              "evaluated in ONE graph in two (thorough three) of the ways dask.compute(all) / xr.Dataset / a - b, each judged against "
+              "its own NumPy call; kernels of apply / focal_stats / hotspots / convolution_2d by entry class (0/1, weights in (0,1), "
+              "integers > 1, negative, NaN, mixed) and dtype (float64, int64, bool; thorough also float32, int32); "
+              "non-trivial = more than one block / a joint group / distinct expected results")
     for body in r.corpus():
         if body["case"].get("stream") == "joint":
             replay_joint(r, T, body["case"], repeat=2)
@@ -821,7 +833,7 @@ def run(r, scale=1):
             check_case(r, T, gen_case(r.rng, T, op))
     import time
     t0 = time.time()
-    joint_stream(r, T, n_stateful=(4 if quick else 20) * scale, n_mixed=(6 if quick else 40) * scale, rounds=2 if quick else 3)
+    joint_stream(r, T, n_stateful=(4 if quick else 20) * scale, n_mixed=(4 if quick else 40) * scale, rounds=2 if quick else 3)
     r.extra["joint_stream_seconds"] = round(time.time() - t0, 1)
     t0 = time.time()
     jointgraph_stream(r, T, per_op=(1 if quick else 8) * scale, n_modes=2 if quick else 3)
